@@ -438,5 +438,20 @@ Example C02_oversized_known_topic :
   c02_chk c02_conn (c02_pub 1 [97; 98] (c02_big 8190)) = ([], [Disconnect 0]).
 Proof. vm_compute. reflexivity. Qed.
 
+(* a SUBSCRIBE by a name that is already registered and announced (here by the client's own
+   REGISTER) re-uses that topic ID (registerTopic), so a PUBLISH on the name is fine while the
+   SUBACK is due and after the broker refused; clauses 6 / 7 arise only for names the session did
+   not know before the SUBSCRIBE *)
+Example C02_subscribe_known_name :
+  let reg := EvSn (pack (Register 0 5 c02_xyz)) in
+  c02_chk (c02_conn ++ [reg; c02_sub]) (c02_pub 1 c02_xyz [1; 2; 3]) =
+  ([], [Publish false 1 false 0 2 77 [1; 2; 3]]) /\
+  c02_chk (c02_conn ++ [reg; c02_sub; c02_refuse]) (c02_pub 1 c02_xyz [1; 2; 3]) =
+  ([], [Publish false 1 false 0 2 77 [1; 2; 3]]) /\
+  (* after a refused SUBSCRIBE the client's REGISTER of the name announces the ID it kept *)
+  c02_chk (c02_conn ++ [c02_sub; c02_refuse; reg]) (c02_pub 1 c02_xyz [1; 2; 3]) =
+  ([], [Publish false 1 false 0 2 77 [1; 2; 3]]).
+Proof. vm_compute. repeat split; reflexivity. Qed.
+
 Print Assumptions chk_C02_sound_partial.
 Print Assumptions chk_C02_all_histories.
